@@ -49,7 +49,7 @@ def run(tier, seed):
         "snapshot of all pool objects plus the namespace manager's hidden tables; non-trivial = a distinct state "
         "first reached by an accepted (state-changing) call")
     found = {}
-    deadline = time.time() + (400 if tier == "quick" else 3000)
+    deadline = time.time() + (900 if tier == "quick" else 6000)
     # refused calls matter as much as accepted ones: S8 (compound constructors with names) and the naming scopes
     # under the DEFAULT policy bring the refusals by the naming rules
     scns = scenarios.STRUCTURAL + [scenarios.S8] + [x for x in scenarios.naming_scenarios() if x.policy == "DEFAULT"]
